@@ -289,7 +289,7 @@ func (c *Ctx) Solve(timeoutMs int, par int, crossCheck bool) {
 			continue
 		}
 		retries++
-		r := runSolvers(c.Query(o, true), 3*timeoutMs, false, solvers)
+		r := runSolvers(c.Query(o, true), 4*timeoutMs, false, solvers)
 		if r.status == "unsat" || r.status == "sat" {
 			o.Status, o.Solver, o.Ms = r.status, r.solver+" (retry)", r.ms
 			o.Candidate = false
